@@ -487,6 +487,47 @@ def rule_r6(repo, rule='C20.R6'):
     return rr
 
 
+def rule_r7(repo, rule='C20.R7'):
+    """Two definition messages in one stream (each with Table A entries of its own, as the messages of an NCEP dictionary have), folded
+    through generate_bufr_message with the repository's own TableGroupCacheManager / TableGroupCache (one cache object per
+    interpreter, as at run time): after the scan the in-stream entries of *both* messages are registered - a data message behind the
+    second definition message may use descriptors that only the first one defined."""
+    from sa.rules import c11
+    from sa.patheval import UnknownMethod
+    rr = RuleResult(rule, 'definitions accumulate over the definition messages of a stream: a later definition message does not drop the entries of an earlier one')
+    gen = repo.func('decoder', 'generate_bufr_message')
+    for kinds in (('tables', 'ok', 'tables', 'ok'), ('tables', 'tables', 'ok'), ('ok', 'tables', 'ok', 'tables', 'tables')):
+        msgs, stream = c11.generated_scenario(kinds)
+        defs = [m.start for m in msgs if m.category == 11]
+
+        class S(c11.Scanner):
+            def on_call(self2, text, callee, args, kwargs, node, frame):
+                if text in ('TableGroupCacheManager.invalidate', 'TableGroupCacheManager.add_extra_entries'):
+                    return self2.NOT_HANDLED        # the repository's own registration code
+                if text.endswith('.process') and isinstance(callee, UnknownMethod) and isinstance(callee.recv, Obj) and callee.recv.cls == 'TableProcessorStub':
+                    k = defs.index(args[0].fields['__start'])
+                    return [{'01%d' % k: 'MESSAGE TYPE %d' % k}, {'04800%d' % (k + 1): ['ELEMENT %d' % k, 'K', 0, 0, 8, '', 0, 0]}, {'36000%d' % (k + 1): ['SEQUENCE %d' % k, []]}]
+                return c11.Scanner.on_call(self2, text, callee, args, kwargs, node, frame)
+        sc = S(repo, msgs, stream)
+        res = sc.run_function(gen, lambda: {'decoder': Obj('DecoderStub', {}), 's': stream, 'info_only': False, 'continue_on_error': False, 'filter_expr': None,
+                                            'args': (), 'kwargs': {}})
+        rr.instance('stream [%s]: %d definition messages' % ('/'.join(kinds), len(defs)))
+        if len(res) != 1 or not res[0].ok:
+            raise AnalysisError('the scan of a scripted stream with %d definition messages does not fold to one normal path: %s' % (len(defs), [r.describe() for r in res]))
+        cache = sc.class_value(repo.cls('TableGroupCacheManager'), '_TABLE_GROUP_CACHE')
+        if not (isinstance(cache, Obj) and isinstance(cache.fields.get('extra_b_entries'), dict) and isinstance(cache.fields.get('extra_d_entries'), dict)):
+            raise AnalysisError('TableGroupCacheManager keeps its definitions in %r: not an object with extra_b_entries / extra_d_entries' % (cache,))
+        want_b = sorted('04800%d' % (k + 1) for k in range(len(defs)))
+        want_d = sorted('36000%d' % (k + 1) for k in range(len(defs)))
+        got_b, got_d = sorted(cache.fields['extra_b_entries']), sorted(cache.fields['extra_d_entries'])
+        if got_b != want_b or got_d != want_d:
+            rr.fail('generate_bufr_message:definitions-accumulate', gen.where, 'stream [%s]: after the scan the registered in-stream elements are %s and sequences %s; the %d '
+                    'definition messages defined %s and %s - entries of an earlier definition message are dropped when a later one arrives' % (
+                        '/'.join(kinds), got_b, got_d, len(defs), want_b, want_d), witness={'stream': list(kinds)})
+    rr.require_floor(3)
+    return rr
+
+
 def _copy_tree(v, memo=None):
     """copy.deepcopy(v, memo): an object already copied under the same memo is handed out again (as deepcopy does)"""
     if memo is None:
@@ -512,6 +553,7 @@ def run(repo, check):
     check.run_rule(rule_r2, repo)
     check.run_rule(rule_r3, repo)
     check.run_rule(rule_r6, repo)
+    check.run_rule(rule_r7, repo)
     from sa.rules import c11 as _c11, c13 as _c13
     from sa.rules.common import share
     share(check, repo, _c11.rule_r1, 'C20.R4', 'the scanner extracts and registers the definitions of every table-definition message it passes - also one that a filter '
